@@ -41,6 +41,11 @@ def run(ctx: core.Run):
         for h in hs:
             traces.append(T.run_history(("small", "L", 8), h, check_fresh=False))
         ctx.hist("exhaustive_histories", "small depth 4 (sample)", len(hs))
+    # 2b. directed families (treeops.directed_histories): stale pointers of detached groups, group_layers in every
+    # order, documentless layers in loose groups across documents, nested groups closing together, emptied documents
+    for fam, recipe, h in T.directed_histories(rng, ctx.quick):
+        traces.append(T.run_history(recipe, h, check_fresh=False))
+        ctx.hist("directed_histories", fam)
     # 3. random walks over every kind of initial tree
     recipes = T.walk_recipes()
     n_walks, max_len = (150, 12) if ctx.quick else (1000, 60)
